@@ -42,6 +42,7 @@ class Contract:
     modifies: list[str] = field(default_factory=list)
     loops: dict[int, Loop] = field(default_factory=dict)
     lemmas: dict[str, Lemma] = field(default_factory=dict)
+    caller_env: list[str] = field(default_factory=list)  # ghost parameters: names of the CALLER's scope the clauses may mention (higher-order interfaces)
     pure: bool = False  # result is an (uninterpreted) function of the arguments: equal arguments give equal results
     captures_only: bool = False  # only the closure-cell (late binding) obligations are generated for this unit
     ghost_entry: str = ""  # ghost statements executed on entry (after the preconditions are assumed)
@@ -105,6 +106,7 @@ class Registry:
         self.opaque: set[str] = set()
         self.consts: dict[str, object] = {}
         self.maplike: set[str] = set()  # classes whose .map(f, xs) is assumed to be [f(x) for x in xs]
+        self.hooks: dict[str, object] = {}  # vocabulary hooks (e.g. "box_tuple": definition facts of a boxed tuple)
         self.exc_bases: dict[str, list[str]] = {
             "Exception": [],
             "AssertionError": ["Exception"],
